@@ -13,20 +13,22 @@ struct Op
   std::string level; // api cli
   int src = -1;      // -1 fresh plaintext, k >= 0: output of step k
   int tamper = 0;    // 0 none, 1 body bit, 2 truncate, 3 tag bit, 4 append
-  int wrongkey = 0;
+  int wrongkey = 0; // decrypt / verify with the key of another key id
+  int keyid = 0;    // which of the history's keys this step uses (keys share prefixes of different lengths)
+  int seedid = 0;   // which IV seed an encryption uses
   int cmode = 1, hmode = 0, T = 2, chunk = 32;
   uint64_t plen = 0, pseed = 0;
   std::string sched = "k0";
   std::string text() const
   {
-    return kind + "," + level + "," + std::to_string(src) + "," + std::to_string(tamper) + "," + std::to_string(wrongkey) + "," + std::to_string(cmode) + "," + std::to_string(hmode) + "," + std::to_string(T) + "," + std::to_string(chunk) + "," + std::to_string(plen) + "," + std::to_string(pseed) + "," + sched;
+    return kind + "," + level + "," + std::to_string(src) + "," + std::to_string(tamper) + "," + std::to_string(wrongkey) + "," + std::to_string(cmode) + "," + std::to_string(hmode) + "," + std::to_string(T) + "," + std::to_string(chunk) + "," + std::to_string(plen) + "," + std::to_string(pseed) + "," + std::to_string(keyid) + "," + std::to_string(seedid) + "," + sched;
   }
   static Op parse(const std::string &s)
   {
     Op o;
     std::vector<std::string> p;
     size_t i = 0;
-    while (i <= s.size() && p.size() < 11)
+    while (i <= s.size() && p.size() < 13)
     {
       size_t e = s.find(',', i);
       if (e == std::string::npos)
@@ -36,7 +38,7 @@ struct Op
     }
     if (i <= s.size())
       p.push_back(s.substr(i));
-    if (p.size() >= 12)
+    if (p.size() >= 14)
     {
       o.kind = p[0];
       o.level = p[1];
@@ -49,7 +51,9 @@ struct Op
       o.chunk = atoi(p[8].c_str());
       o.plen = strtoull(p[9].c_str(), NULL, 10);
       o.pseed = strtoull(p[10].c_str(), NULL, 10);
-      o.sched = p[11];
+      o.keyid = atoi(p[11].c_str());
+      o.seedid = atoi(p[12].c_str());
+      o.sched = p[13];
     }
     return o;
   }
@@ -112,12 +116,28 @@ static bytes step_input(const Op &op, const std::vector<StepRes> &prev)
   return tamper(in, op.tamper);
 }
 
-static bytes the_key(const Op &op, const bytes &key)
+// the keys of a history are related on purpose: they agree in the first 15 / 8 / 3 bytes or not at all,
+// so that anything remembered per key (prefix) from an earlier step would show
+static bytes key_of(const bytes &key, int id)
 {
   bytes k = key;
-  if (op.wrongkey)
+  switch (id & 3)
+  {
+  case 1:
+    k[15] ^= 0x01;
+    break;
+  case 2:
+    k[8] ^= 0x80;
+    break;
+  case 3:
     k[3] ^= 0x40;
+    break;
+  }
   return k;
+}
+static bytes the_key(const Op &op, const bytes &key)
+{
+  return key_of(key, op.wrongkey ? op.keyid + 1 + (op.wrongkey & 1) : op.keyid);
 }
 
 // runs inside a child; `dir` is the scratch directory of this child
@@ -135,7 +155,7 @@ static StepRes run_step(const Op &op, const bytes &input, const bytes &key, cons
   {
     wapi::OpOut o;
     if (op.kind == "enc")
-      o = wapi::encrypt(input, k, bytes{'h', 'i', 's', 't'}, op.cmode, op.hmode, pc);
+      o = wapi::encrypt(input, k, bytes{'h', 'i', 's', 't', (uint8_t)('0' + (op.seedid & 3))}, op.cmode, op.hmode, pc);
     else if (op.kind == "dec")
       o = wapi::decrypt(input, k, pc);
     else
@@ -401,6 +421,8 @@ static Case gen_c15()
         r = 0;
       o.plen = (uint64_t)(q * o.chunk + r % o.chunk);
       o.pseed = g::u64() % 1000000;
+      o.keyid = (int)g::range(0, 4);
+      o.seedid = (int)g::range(0, 4);
       kinds.push_back("file");
     }
     else
@@ -414,13 +436,15 @@ static Case gen_c15()
       o.T = srcT;
       o.chunk = (int)c.geti("chunk" + std::to_string(o.src), o.chunk);
       o.tamper = g::coin(30) ? (int)g::range(1, 5) : 0;
-      o.wrongkey = g::coin(20) ? 1 : 0;
+      o.wrongkey = g::coin(20) ? (int)g::range(1, 3) : 0;
+      o.keyid = (int)c.geti("keyid" + std::to_string(o.src), 0);
       kinds.push_back(o.kind == "dec" ? "plain" : "none");
     }
     if (o.kind == "enc" && o.level == "cli")
       o.T = 4;
     c.seti("T" + std::to_string(i), o.T);
     c.seti("chunk" + std::to_string(i), o.chunk);
+    c.seti("keyid" + std::to_string(i), o.keyid);
     o.sched = gen_sched(o.T, (size_t)(o.plen / 16 + 4)).text();
     c.set("op" + std::to_string(i), o.text());
   }
@@ -433,9 +457,9 @@ static void fixed_c15(Ctx &ctx)
   uint64_t i = 0;
   // hand-built histories: success after failure, changing T and chunk, API and CLI mixed
   const char *hs[][8] = {
-      {"enc,api,-1,0,0,1,0,2,32,100,1,k0", "dec,api,0,0,1,1,0,2,32,0,0,k0", "dec,api,0,0,0,1,0,2,32,0,0,k0", "ver,api,0,3,0,1,0,2,32,0,0,k0", "enc,api,-1,0,0,2,2,16,16,63,2,k0", "dec,api,4,0,0,2,2,16,16,0,0,k0", NULL},
-      {"enc,cli,-1,0,0,3,1,4,64,255,3,k0", "ver,cli,0,0,0,3,1,4,64,0,0,k0", "dec,cli,0,1,0,3,1,4,64,0,0,k0", "dec,cli,0,0,0,3,1,4,64,0,0,k0", "enc,api,-1,0,0,4,0,3,48,96,4,k0", "dec,api,4,0,0,4,0,3,48,0,0,k0", NULL},
-      {"enc,api,-1,0,0,0,0,1,16,0,5,k0", "dec,api,0,0,0,0,0,1,16,0,0,k0", "enc,api,-1,0,0,1,1,5,16,79,6,k0", "dec,api,2,2,0,1,1,5,16,0,0,k0", "dec,api,2,0,0,1,1,5,16,0,0,k0", "enc,cli,-1,0,0,2,2,4,32,31,7,k0", "dec,cli,5,0,0,2,2,4,32,0,0,k0", NULL},
+      {"enc,api,-1,0,0,1,0,2,32,100,1,0,0,k0", "dec,api,0,0,1,1,0,2,32,0,0,0,0,k0", "dec,api,0,0,0,1,0,2,32,0,0,0,0,k0", "ver,api,0,3,0,1,0,2,32,0,0,0,0,k0", "enc,api,-1,0,0,2,2,16,16,63,2,1,1,k0", "dec,api,4,0,0,2,2,16,16,0,0,1,0,k0", NULL},
+      {"enc,cli,-1,0,0,3,1,4,64,255,3,0,0,k0", "ver,cli,0,0,0,3,1,4,64,0,0,0,0,k0", "dec,cli,0,1,0,3,1,4,64,0,0,0,0,k0", "dec,cli,0,0,0,3,1,4,64,0,0,0,0,k0", "enc,api,-1,0,0,4,0,3,48,96,4,2,1,k0", "dec,api,4,0,0,4,0,3,48,0,0,2,0,k0", NULL},
+      {"enc,api,-1,0,0,0,0,1,16,0,5,0,0,k0", "dec,api,0,0,0,0,0,1,16,0,0,0,0,k0", "enc,api,-1,0,0,1,1,5,16,79,6,1,2,k0", "dec,api,2,2,0,1,1,5,16,0,0,1,0,k0", "dec,api,2,0,0,1,1,5,16,0,0,1,0,k0", "enc,cli,-1,0,0,2,2,4,32,31,7,0,0,k0", "dec,cli,5,0,0,2,2,4,32,0,0,0,0,k0", NULL},
   };
   for (auto &h : hs)
   {
